@@ -47,6 +47,46 @@ PLACEHOLDER = ("proof",
                COMMON_NOTE, "CBMC function contracts (dfcc) on the real C code")
 
 
+ROUTE_WORDS = [
+    ("U", "proved for all inputs with function contracts and in-place loop contracts (unbounded)"),
+    ("C", "proved against their function contract with goto-instrument --dfcc (loop-free, or loops closed by "
+          "a constant of the code; complete)"),
+    ("P", "decided by a loop-free CBMC harness over the full symbolic input domain (complete; frame by snapshots)"),
+    ("M", "decided per opcode by interpreter micro-programs through the real yr_execute_code over full-width "
+          "symbolic operands (complete for the stated program shapes)"),
+    ("B", "bounded stand-ins only (--unwind with unwinding assertions; the bound is in the evidence file; "
+          "never counted as proved)"),
+]
+
+
+def auto_text(pid, cat):
+    reg = runner.load_registry()["targets"]
+    by_route = {}
+    for t in reg:
+        if pid in t["properties"]:
+            for fn in t.get("functions", []) or [t["id"]]:
+                by_route.setdefault(t.get("route", "B"), [])
+                if fn not in by_route[t["route"]]:
+                    by_route[t["route"]].append(fn)
+    parts = []
+    for r, words in ROUTE_WORDS:
+        if r in by_route:
+            fns = sorted(set(f.split(":")[-1] for f in by_route[r]))
+            parts.append("%s: %s" % (words, ", ".join(fns)))
+    text = ("CBMC 6.11 code contracts and contract-style harnesses on the real libyara source (harnesses "
+            "#include the .c file from /repo on every run). Functions this property rests on that are " +
+            "; ".join(parts) + ". The property as an end-to-end statement over all rules and inputs is NOT "
+            "decided: what is decided is that each listed function meets the postcondition derived from the "
+            "property text; callers and glue between them are unverified surroundings (evidence file: "
+            "trusted_base, assumptions; DESIGN.md A and section 3).")
+    if cat != "proof":
+        text = "No unbounded or complete target for this property; level is 'other'. " + text
+    routes = [r for r, _ in ROUTE_WORDS if r in by_route]
+    tech = "CBMC function contracts on the real C code (goto-instrument --dfcc / full-domain harnesses); routes " + \
+           "+".join(routes) + "; MiniSat" + (" and cvc5" if pid == "C01" else "")
+    return text, tech
+
+
 def main():
     props = [json.loads(l) for l in open(VERIF + "/properties.jsonl")]
     claimed = set()
@@ -65,6 +105,7 @@ def main():
         if pid in claimed and pid not in NA_FIXED:
             cat, text, note, tech = TEXT.get(pid, PLACEHOLDER)
             cat = runner.property_level(runner.load_registry(), pid)
+            text, tech = auto_text(pid, cat)
             checks.append(dict(
                 property_id=pid,
                 quick_cmd="./check %s quick" % pid,
